@@ -69,18 +69,6 @@ func newDataReader(c *Conn) *dataReader {
 }
 
 func (r *dataReader) Read(b []byte) (n int, err error) {
-	if r.limited {
-		if r.n <= 0 {
-			return 0, ErrDataTooLarge
-		}
-		if int64(len(b)) > r.n {
-			b = b[0:r.n]
-		}
-	}
-
-	// Code below is taken from net/textproto with only one modification to
-	// not rewrite CRLF -> LF.
-
 	// Run data through a simple state machine to
 	// elide leading dots and detect End-of-Data (<CR><LF>.<CR><LF>) line.
 	const (
@@ -91,6 +79,28 @@ func (r *dataReader) Read(b []byte) (n int, err error) {
 		stateData             // reading data in middle of line
 		stateEOF              // reached .\r\n end marker line
 	)
+
+	if r.limited {
+		if r.n <= 0 {
+			// The budget is used up: only the end marker may follow. A
+			// message of exactly the maximum size is not too large.
+			if r.state == stateBeginLine {
+				if p, _ := r.r.Peek(3); string(p) == ".\r\n" {
+					r.r.Discard(3)
+					r.state = stateEOF
+					return 0, io.EOF
+				}
+			}
+			return 0, ErrDataTooLarge
+		}
+		if int64(len(b)) > r.n {
+			b = b[0:r.n]
+		}
+	}
+
+	// Code below is taken from net/textproto with only one modification to
+	// not rewrite CRLF -> LF.
+
 	for n < len(b) && r.state != stateEOF {
 		var c byte
 		c, err = r.r.ReadByte()
